@@ -604,7 +604,9 @@ P_C01(pre, e) ==
     /\ (e.ev = "upd" =>
           \A sn \in DOMAIN e.a.limits :
              e.a.limits[sn].maxsel >= 0 =>
-               \A mid \in DOMAIN pre.mkt :
+               \* (a non-runner's price reduction of bets already matched is not among the histories the
+               \*  statement quantifies over - fills, cancellations, lapses, suspensions, results - and is C09's subject)
+               \A mid \in {m \in DOMAIN pre.mkt : pre.mkt[m].removed = <<>>} :
                   LET bs == BySel(pre, sn, mid) IN
                   \A sk \in DOMAIN bs :
                      Ck("C01", "LossBounded",
